@@ -241,7 +241,11 @@ def _expand(history):
     out = []
     viol = []
     ntrans = 0
-    for ev in g.enabled(t, history):
+    try:
+        events = g.enabled(t, history)
+    except Exception as e:
+        return history, out, [(history, ("enumerate-edits",), ["reading the tree raised %s: %s" % (type(e).__name__, str(e)[:200])])], 0
+    for ev in events:
         try:
             nt = g.apply(t, ev)
         except Exception as e:
